@@ -14,7 +14,9 @@ RULE = (
     "(past the fixed header, where only the recorded payload size protects); distinct by (file digest, k), "
     "counted per file as len-16. cuts_other_words: the same enumeration over files laid out by the independent "
     "encoder in the other documented word sizes (1/2/8-byte row-id words, index words wider than needed), because a "
-    "reader may treat non-32-bit row ids on a separate path."
+    "reader may treat non-32-bit row ids on a separate path. cuts_many_entries: files with 1 023 .. 4 097 (thorough 8 192) "
+    "entries, where a reader may switch to a bulk path; the cut points are SAMPLED there (last 48 bytes, 12 bytes around "
+    "every section boundary, every 101st byte) because each load parses thousands of coordinates."
 )
 ASSUMPTIONS = [
     "a torn write leaves a strict prefix of the intended file (the fault model of the property)",
@@ -95,7 +97,62 @@ def check_other_words(case, rec):
         rec.distinct_by_construction += max(0, n - 16) - 1
 
 
+def enum_many_entries(tier, shard, nshards):
+    """Files with MANY entries (a fully populated grid of codes x columns: 1 023 .. 4 097 coordinates, 0..2 row ids
+    each). Every cut point would cost a full parse of thousands of coordinates, so the cut points are sampled: the last
+    48 bytes, 12 bytes around every section boundary, and every 101st byte."""
+    i = 0
+    for many in ([1023, 1024, 1025, 4096] if tier == "quick" else [255, 256, 1023, 1024, 1025, 2048, 4095, 4096, 4097, 8192]):
+        for arity in (1, 2, 3):
+            for k in (0, 1):
+                if i % nshards == shard:
+                    width = 128
+                    ents = []
+                    for j in range(many):
+                        c = [j // width, j % width, j % 3][:arity] if arity >= 2 else [j]
+                        ents.append([c, [7 * j + t for t in range((j + k) % 3)]])
+                    yield {"common": 0, "arity": arity, "entries": ents, "layout": "plain"}
+                i += 1
+
+
+def check_sampled_cuts(case, rec):
+    from catii.indxio import IndxIO
+
+    with libcall("IndxIO.save"):
+        data, path = G.save_to_bytes(case)
+    n = len(data)
+    with open(path, "rb") as f:
+        with libcall("IndxIO.load(complete file)"):
+            IndxIO.load(f)
+    ne = len(case["entries"])
+    iw = data[16 + 1 + 4]
+    index_end = 16 + 1 + 4 + 1 + iw + iw * case["arity"] * ne
+    rw = data[index_end]
+    lengths_end = index_end + 1 + rw * ne
+    cuts = set(range(max(0, n - 48), n)) | set(range(0, n, 101))
+    for b in (16, index_end, lengths_end):
+        cuts |= set(range(max(0, b - 6), min(n, b + 6)))
+    with open(path, "r+b") as f:
+        for k in sorted(cuts, reverse=True):
+            os.ftruncate(f.fileno(), k)
+            f.seek(0)
+            try:
+                out = IndxIO.load(f)
+            except Exception:
+                continue
+            desc = "%d entries" % len(out[0]) if isinstance(out, tuple) else repr(out)
+            del out
+            raise Violation("load() of the first %d of %d bytes of a file with %d entries returned (%s) instead of "
+                            "raising" % (k, n, ne, desc), sig="torn file with many entries accepted")
+    rec.count("torn_loads", len(cuts))
+    rec.note("entries=%d" % ne, "arity=%d" % case["arity"])
+    rec.evaluations += len(cuts) - 1
+    rec.nontrivial_enum()
+
+
 SUBS = [
+    Sub("cuts_many_entries", check_sampled_cuts, enumerate=enum_many_entries, exhaustive=False,
+        shards={"quick": 8, "thorough": 16}),
     Sub("cuts_other_words", check_other_words, strategy=other_word_cases,
         examples={"quick": 600, "thorough": 15000}),
     Sub("cuts", check, strategy=lambda tier: G.indx_cases(40 if tier == "quick" else 200,
